@@ -81,6 +81,17 @@ def r2_abs_index(ctx, rule="C04.R2"):
 
 
 def _role(o):
+    # the iterator spelling: `for (&arg, &(lbound, ubound)) in indices.iter().zip(self.dimensions.iter())`
+    import re as _re
+    full = str(o)
+    m = _re.search(r"zip\((.*?), (.*?)\)\)*.* as Some\)\.0\.(\d)(?:\.(\d))?$", full)
+    if m and "dimensions" in m.group(2) and "dimensions" not in m.group(1):
+        if m.group(3) == "0":
+            return "arg"
+        if m.group(3) == "1" and m.group(4) == "0":
+            return "lbound"
+        if m.group(3) == "1" and m.group(4) == "1":
+            return "ubound"
     s = mir.short_origin(o)
     if "arg1" in s and "dimensions" not in s:
         return "arg"
